@@ -92,6 +92,60 @@ def gdb_handover(args):
     return call, fake_sys.argv
 
 
+def real_gdb_handover(ctx, rep):
+    """main.py <our words> -g <words for gdb>: the real gdb starts the real inner instance; what it sees as sys.argv and what
+    gdb itself received are printed from inside gdb and compared"""
+    import subprocess
+    r = ctx.rnd
+    OURS = [[], ['-C'], ['-f', 'wl_surface'], ['-f', 'x(title="a b")'], ['-f', '(="C:\\dir\\new")'], ['-b', '.commit, wl_pointer ! .motion'],
+            ['--supress', '-f', "(=\"it's\")"], ['-f', '(="tab\\t")'], ['-C', '-b', 'B: 7c'], ['--libwayland', '/tmp', '-f', '[wl_pointer ! 55, 62].motion']]
+    THEIRS = [[], ['-nx'], ['-ex', 'echo hello\\n'], ['-ex', 'python print("-r -f --gdb")'], ['--args', '/bin/true', '-g', '-f', 'x']]
+    n = 0
+    for k in range(ctx.pick(8, 60)):
+        ours = r.choice(OURS)
+        marker = r.choice([['-g'], ['--gdb']]) if (not ours or ours[-1] != '-C' or r.random() < 0.5) else None
+        if marker is None:
+            argv = ours[:-1] + ['-Cg']
+            ours_expected = ours[:-1] + ['-C']
+        else:
+            argv = ours + marker
+            ours_expected = ours
+        theirs = r.choice(THEIRS)
+        probe = ['-batch', '-ex', 'python import sys, json; print("INNER-ARGV " + json.dumps(sys.argv))']
+        cmd = [PY_BIN, os.path.join(e1.REPO, 'main.py')] + argv + probe + theirs
+        env = dict(os.environ, LANG='C.UTF-8', LC_ALL='C.UTF-8')
+        try:
+            p = subprocess.run(cmd, cwd=e1.REPO, env=env, stdin=subprocess.DEVNULL, stdout=subprocess.PIPE, stderr=subprocess.STDOUT, timeout=120)
+        except subprocess.TimeoutExpired:
+            raise tlc.MachineryError('gdb did not finish: %r' % cmd)
+        out = p.stdout.decode('utf-8', 'replace')
+        n += 1
+        rep.case('real-gdb:' + json.dumps(argv + theirs))
+        rp = {'kind': 'realgdb', 'argv': argv + probe + theirs}
+        inner = None
+        for ln in out.split('\n'):
+            if ln.startswith('INNER-ARGV '):
+                inner = json.loads(ln[len('INNER-ARGV '):])
+        want = [os.path.join(e1.REPO, 'main.py')] + ours_expected
+        if inner is None:
+            rep.violation('realgdb:inner-not-started', 'the instance inside gdb did not come up for %r: %s' % (argv, out[-300:]), rp)
+        elif inner != want:
+            rep.violation('realgdb:inner-argv', 'the instance inside gdb sees sys.argv = %r, our words are %r' % (inner, want), rp)
+        started = [ln for ln in out.split('\n') if ln.startswith('Running subprocess: ')]
+        if started:
+            try:
+                import ast
+                call = ast.literal_eval(started[0][len('Running subprocess: '):])
+                if call[3:] != probe + theirs:
+                    rep.violation('realgdb:forwarded', 'gdb was started with %r, the forwarded words are %r' % (call[3:], probe + theirs), rp)
+            except (ValueError, SyntaxError):
+                pass
+    rep.extra['real_gdb_handovers'] = n
+
+
+PY_BIN = '/venv/bin/python'
+
+
 def run(ctx):
     rep = framework.Report(ctx, LEVEL)
     r = ctx.rnd
@@ -180,6 +234,7 @@ def run(ctx):
                         rep.violation(key, 'the instance inside gdb would see sys.argv = %r instead of %r' % (inner, ['main.py'] + before), rp)
         if len(rep.samples) < 4 and want['o'] == 'ok' and len(argv) >= 3:
             rep.sample({'classes': argv, 'words': words, 'outcome': want})
+    real_gdb_handover(ctx, rep)
     rep.traces = rep.evaluations
     rep.extra['gdb_handovers_checked'] = nh
     rep.rule = ('P1: TLC checks ForwardedVerbatim / FirstWins / ExactlyOneMode on CmdLine!Outcome for every argv of <= 4/5 tokens over 14 token '
@@ -193,6 +248,12 @@ def run(ctx):
 
 
 def replay(ctx, data):
+    if data.get('kind') == 'realgdb':
+        import subprocess
+        p = subprocess.run([PY_BIN, os.path.join(e1.REPO, 'main.py')] + data['argv'], cwd=e1.REPO, stdin=subprocess.DEVNULL,
+                           stdout=subprocess.PIPE, stderr=subprocess.STDOUT, timeout=120)
+        print(p.stdout.decode('utf-8', 'replace')[-1500:])
+        return True
     got = call_parse_args(data['words'])
     print('parse_args ->', got['exc'], got.get('msg', got.get('code')))
     if got['args'] is not None:
